@@ -1,6 +1,8 @@
 """History analysis of one rejection_sample / iterative_rejection_sample call (RNG + pool + storage
 seams) and the per-property oracles that read it (C02, C03-restricted, C06, C14, C16).
 """
+import os
+
 import numpy as np
 
 from sim import oracles
@@ -312,3 +314,70 @@ def add_arg_types(rnd, op, p=0.2):
                 kt[k] = rnd.choice(["i8", "i8", "i4"])
     if kt:
         op["kw_types"] = kt
+
+
+def add_concurrent(rnd, prog, p=0.12):
+    """With probability p one sampling op of the program gets a SECOND CALLER: a complete call by another TheJoker
+    (own generator, real SerialPool, same process, same temp directory) that runs while the op is inside pool.map.
+    Two callers never share anything but the inputs they were both given, so neither may notice the other."""
+    if rnd.random() >= p:
+        return None
+    cands = [o for o in prog["ops"] if o.get("op") in ("rejection", "iterative", "mll") and not o.get("in_memory") and o.get("joker", "main") in ("main", "fresh")]
+    if not cands:
+        return None
+    op = rnd.choice(cands)
+    cfg = prog["config"]
+    li = rnd.randrange(len(cfg["libraries"]))
+    N = cfg["libraries"][li]["n"]
+    path, pname = gen_path(rnd)
+    kind = rnd.choice(["rejection", "rejection", "iterative", "mll"])
+    nop = {"id": 7000 + op["id"], "op": kind, "data": rnd.randrange(len(cfg["datasets"])), "lib": li, "rng_seed": rnd.getrandbits(30), "role": "second-caller",
+           # a thread of the same process, or a sibling PROCESS forked when the run started (module state of that moment, other pid)
+           "forked": rnd.random() < 0.5,
+           # the second caller may itself be suspended on entering its k-th pool.map (its cache file exists by then) and
+           # finish only after the first caller's op: the two calls truly overlap
+           "park_at_map": rnd.choice([None, None, 0, 0, 1])}
+    nop.update(path)
+    if rnd.random() < 0.6:
+        nop["source"], nop["in_memory"] = "object", False  # the cache path: both callers write temporary files
+    if kind == "rejection":
+        nop["kw"] = gen_rejection_kw(rnd, N, pname)
+    elif kind == "iterative":
+        nop["kw"] = gen_iterative_kw(rnd, N, pname)
+        nop["kw"]["init_batch_size"] = rnd.randint(1, max(1, N))
+    else:
+        nop["n_batches"] = rnd.choice([None, 1, 2, 3])
+    for k in ("return_logprobs", "return_all_logprobs"):
+        nop.get("kw", {}).pop(k, None)
+    op["concurrent"] = {"at_map": rnd.choice([0, 0, 1, 1, 2]), "at_slot": rnd.choice([0, 0, 1, 2, "end"]), "op": nop}
+    return op
+
+
+def check_concurrent(dep, prop, probes):
+    """Every call a second caller made in the middle of another call must return what the same call returns alone."""
+    from . import c10
+
+    v = []
+    tmp = os.path.realpath(dep.world.tmpdir)
+    for orec in dep.history:
+        if orec.get("concurrent_fired") and orec.get("raised"):
+            for tname, msg in orec["raised"]:
+                if tname in ("FileNotFoundError", "OSError", "PermissionError", "BlockingIOError", "KeyError", "HDF5ExtError", "NoSuchNodeError") and (tmp in str(msg) or dep.world.tmpdir in str(msg)):
+                    v.append(Violation(prop, prop + ".concurrent-callers", "%s:first-caller:%s:fails-on-its-temporary-file-while-a-second-caller-is-active" % (prop, orec["op"]["op"]),
+                                       "op %s raised %s while another TheJoker made a call of its own" % (orec["op"].get("id"), orec["raised"][:2])))
+                    break
+    for rec in list(dep.concurrent):
+        probes["second_caller_calls_interleaved"] = probes.get("second_caller_calls_interleaved", 0) + 1
+        alone = dep.run_concurrent(rec["op"], during=None)
+        if rec.get("tmp_left"):
+            v.append(Violation(prop, prop + ".concurrent-callers", "%s:second-caller:%s:temporary-file-left-behind" % (prop, rec["op"]["op"]),
+                               "a %s call made by another TheJoker (%s) while op %s was inside pool.map left %s behind" % (rec["op"]["op"], "forked sibling" if rec["op"].get("forked") else "same process", rec["during"], rec["tmp_left"][:3])))
+        if rec["op"].get("forked"):
+            probes["second_caller_was_a_forked_sibling"] = probes.get("second_caller_was_a_forked_sibling", 0) + 1
+        if rec.get("was_parked"):
+            probes["second_caller_suspended_mid-call_and_resumed_after_the_first"] = probes.get("second_caller_suspended_mid-call_and_resumed_after_the_first", 0) + 1
+        diff = c10._same_output(rec, alone)
+        if diff is not None:
+            v.append(Violation(prop, prop + ".concurrent-callers", "%s:second-caller:%s:result-differs-from-the-same-call-made-alone" % (prop, rec["op"]["op"]),
+                               "a %s call made by another TheJoker while op %s was inside pool.map: %s" % (rec["op"]["op"], rec["during"], diff)))
+    return v
